@@ -43,7 +43,7 @@ RULE = (
     "referencing themselves / each other, key-table parent loops, QCOW2 L1->header, VHDX region->itself) and decompression "
     "bombs (QCOW2 cluster / VMDK grain whose deflate stream expands to >= 64 MiB). The driver opens the input and touches the "
     "public surface (size, 64 KiB reads at start/middle/tail, snapshots, as_dict, disks, members + extract, decrypt, unlock). "
-    "Oracle: it returns or raises (any exception) within 10 s of CPU time and with a tracemalloc peak <= 32 MiB + 8 x (input + "
+    "Oracle: it returns or raises (any exception) within 10 s of CPU time and with a tracemalloc peak <= 64 MiB + 8 x (input + "
     "requested bytes + allocation unit of the seed). Non-trivial = the mutated input differs from its seed and still passes "
     "the first magic check (the parser got past its header)."
 )
@@ -53,7 +53,7 @@ ASSUMPTIONS = [
 ]
 
 REQ = 65536
-BASE_MEM = 32 << 20
+BASE_MEM = 64 << 20  # interpreter + stdlib constants (tarfile probing its xz/bz2/gz openers alone peaks at ~50 MB)
 
 
 def budget(tier):
